@@ -463,3 +463,24 @@ def b4(ctx):
 def b5(ctx):
     from .c01 import w2
     return w2(ctx)
+
+
+@rule("C04", "A4", floor=8, kind="S",
+      desc="debris of an interrupted write hides nothing else: the listers skip an odd entry and go on (no break / return "
+           "inside a listing loop), and a failed removal is reported (no ignore_errors on the rmtree fallback)")
+def a4(ctx):
+    from .common import total_loop_obligations
+    obs = list(total_loop_obligations(ctx))
+    n = 0
+    for mname in ("xandikos.web", "xandikos.store.git", "xandikos.store.vdir", "xandikos.store"):
+        for fi in ctx.P.funcs_in_module(mname):
+            for c in walk_local(fi.node):
+                if isinstance(c, ast.Call) and (dotted(c.func) or "").endswith("rmtree"):
+                    n += 1
+                    sw = [k for k in c.keywords if k.arg in ("ignore_errors", "onerror", "onexc") and not (isinstance(k.value, ast.Constant) and k.value.value in (False, None))]
+                    sw += [a for a in c.args[1:2] if not (isinstance(a, ast.Constant) and a.value in (False, None))]
+                    obs.append(ctx.ob(not sw, fi.qualname, "%s:%d" % (fi.module.rel, c.lineno), "rmtree failures surface", "shutil.rmtree(path)",
+                                      "`%s` swallows errors: a removal that did not happen is acknowledged as done" % src(c)[:60]))
+    if n < 2:
+        raise AnalysisError("only %d rmtree sites found (confirmed: 4)" % n)
+    return obs
